@@ -269,11 +269,17 @@ func (e *Engine) inlinable(fn, under *ssa.Function) bool {
 	if len(fn.Blocks) == 0 {
 		return false
 	}
+	// loop-free helpers without a contract are executed in place (an extracted helper must not need a contract
+	// of its own to keep its caller's proof); debug pseudo-instructions do not count towards the size
 	n := 0
 	for _, b := range fn.Blocks {
-		n += len(b.Instrs)
+		for _, ins := range b.Instrs {
+			if _, dbg := ins.(*ssa.DebugRef); !dbg {
+				n++
+			}
+		}
 	}
-	if n > 60 || len(e.loopInfo(fn)) > 0 {
+	if n > 150 || len(fn.Blocks) > 40 || len(e.loopInfo(fn)) > 0 {
 		return false
 	}
 	return true
